@@ -87,8 +87,11 @@ let nth_now l i dflt = try List.nth l i with _ -> dflt
 let run_world op kv (names : string list)
     (runner : bool -> (z * handle option) list -> (string -> z) -> z list -> z -> (((z * handle option) list * status) * record list))
     (dests : string list) =
+  (* ro=: the user may not write the destination (nor create files): the command fails, nothing changes *)
+  if get kv "ro" "" <> "" then obs "%s err" op else
+  let nostatus = geti kv "nostatus" 0 = 1 in
   match textout kv with
-  | ToBad -> obs "%s err" op
+  | ToBad -> obs "%s %s" op (if nostatus then "done" else "err")
   | to_ ->
     let tbl = Hashtbl.create 16 in
     List.iter (fun n -> if not (Hashtbl.mem tbl n) then Hashtbl.add tbl n (Hashtbl.length tbl)) names;
@@ -101,6 +104,7 @@ let run_world op kv (names : string list)
         | None, None -> ()
         | v, _ -> set_file d v) dests;
     let st = textout_status to_ st in
+    if nostatus then obs "%s done" op else
     (match to_ with ToFile -> emit op st recs | _ -> obs "%s %s" op (status_str st))
 
 let emit_readonly op kv st recs =
@@ -261,12 +265,14 @@ let () =
     end);
   register "cliview" (fun tk ->
     let kv = kv_of tk in
+    apply_live kv;
     let (sb, sr) = base_rel (get kv "src" "") in
     let now = nth_now (nows kv) 0 (clock0 kv) in
     let (st, recs) = view_cmd (lookup (join sb sr)) (getz kv "archive" (-1)) (getz kv "from" 0) (getz kv "until" 0) now (geti kv "header" 1 = 1) in
     emit_readonly "cliview" kv st recs);
   register "cliviewraw" (fun tk ->
     let kv = kv_of tk in
+    apply_live kv;
     let (sb, sr) = base_rel (get kv "src" "") in
     let now = nth_now (nows kv) 0 (clock0 kv) in
     let sort = geti kv "sort" 0 = 1 in
@@ -352,12 +358,12 @@ let () =
        let npts = List.fold_left (fun n (_, c) -> n + int_of_z c) 0 layout in
        let long = textout kv = ToFull && geti kv "fill" 1 = 1 && npts >= 150 in
        (match f with
-        | Some h -> set_file (get kv "dest" "")
+        | Some h -> set_file (phys_name (get kv "dest" ""))
                       (if long then create (getz kv "m" 2) (z_of_hex (get kv "x" "3f000000")) layout else Some h)
         | None -> ());
        obs "cligenerate %s" (status_str (textout_status (textout kv) st))
      | ToFile ->
-       (match f with Some h -> set_file (get kv "dest" "") (Some h) | None -> ());
+       (match f with Some h -> set_file (phys_name (get kv "dest" "")) (Some h) | None -> ());
        (match st, f with
         | StOk, Some h ->
           (match gen_constraints layout (geti kv "max" 10) (geti kv "fill" 1 = 1) (int_of_z now) pl with
@@ -532,3 +538,8 @@ let () =
 
 (* clisumtick: a /sum request answered while the clock moves is an error or the sum for one instant *)
 let () = register "clisumtick" (fun _ -> obs "clisumtick consistent")
+
+(* round 13 *)
+let () =
+  (* a file the user may read but not write gives the same answer through a directory and through a server *)
+  register "cliroread" (fun _ -> obs "cliroread same=true")
